@@ -42,6 +42,17 @@ def check_layout(R, nodes, module):
             if t.stiff == rt.FIXED and node.byte_size != t.size:
                 bad.append(("C04/model/byte_size/%s" % t.cat, "%s: prophyc byte_size %r, layout rules %d" %
                             (name, node.byte_size, t.size)))
+            # member alignments: what the generators turn into the padding they emit (first member of a block after a
+            # dynamic field carries the block's greatest alignment; an optional counts with its 4-byte flag)
+            if t.cat == "struct" and len(getattr(node, "members", ())) == len(t.items):
+                for it, mem in zip(t.items, node.members):
+                    exp = max(it.align, it.block_align or 0)
+                    if mem.alignment != exp:
+                        bad.append(("C04/model/member-alignment/%s" % it.what,
+                                    "%s.%s: prophyc member alignment %r, layout rules %d (%s%s)" %
+                                    (name, mem.name, mem.alignment, exp, it.what,
+                                     ", first of a block of alignment %d" % it.block_align if it.block_align else "")))
+                        break
         # --- Python runtime statics of the generated class
         if module is not None:
             cls = getattr(module, name, None)
